@@ -24,7 +24,7 @@ func init() {
 		Floor: 114,
 		Run:   ruleLock1,
 		Exceptions: []string{
-			"(*Footer).doLoadSegments writes Footer.ss: its receiver is always a footer under construction (buildNewFooter / writeSegments result, ScanFooter literal) or a child of one",
+			"(*Footer).doLoadSegments writes Footer.ss, and initialises Footer.refs of its children: its receiver is always a footer under construction (buildNewFooter / writeSegments result, ScanFooter literal) or a child of one",
 			"(*Store).persistSegments writes Footer.SegmentLocs: the footer is the one buildNewFooter just built for this persist, not yet published",
 			"(*Footer).spliceFooter writes Footer.SegmentLocs: the receiver is the compaction footer under construction",
 			"closures of (*collection).runMerger write segmentStack.refs: ss is the fresh stack snapshot() is still building (callback runs before it is published)",
@@ -116,6 +116,7 @@ func lockBit(tn string) uint8 {
 // lock1Exceptions: (function, Type.field) -> reason
 var lock1Exceptions = map[string]string{
 	"(*Footer).doLoadSegments|Footer.ss":          "receiver is a footer under construction",
+	"(*Footer).doLoadSegments|Footer.refs":        "initialises the count of a child footer that was just deserialised / built: not yet reachable by anyone else",
 	"(*Store).persistSegments|Footer.SegmentLocs": "footer just built by buildNewFooter for this persist, unpublished",
 	"(*Footer).spliceFooter|Footer.SegmentLocs":   "receiver is the compaction footer under construction",
 	"(*collection).runMerger$*|segmentStack.refs": "ss is the fresh stack snapshot() is still building",
